@@ -135,4 +135,6 @@ def close(a: float, b: float, rel: float = 1e-9, abs_: float = 0.0) -> bool:
         return False
     if a != a or b != b:
         return False
+    if a in (float('inf'), float('-inf')) or b in (float('inf'), float('-inf')):
+        return False          # equal infinities were accepted above; anything else is a difference
     return abs(a - b) <= max(abs_, rel * max(1.0, abs(a), abs(b)))
